@@ -788,6 +788,32 @@ func genKflEval(r *Rand, tier string, emit func(sx.Sx)) {
 			}
 		}
 	}
+	// literals at the edges of the integer types (2^31, 2^53, 2^63, 2^64) against small numbers of the record: ordering is
+	// numeric whatever width an implementation keeps its integers in
+	{
+		ident := func(p string) node { return callNode(p, sx.A("noparams"), sx.A("nosel"), p) }
+		obj := func(kv ...sx.Sx) sx.Sx { return sx.L(append([]sx.Sx{sx.A("o")}, pairs(kv)...)...) }
+		for _, lit := range []string{"2147483647", "2147483648", "4294967296", "9007199254740992", "9223372036854775807", "9223372036854775808", "18446744073709551615", "18446744073709551616", "100000000000000000000"} {
+			for _, op := range []string{">=", "<=", ">", "<"} {
+				for _, flip := range []bool{false, true} {
+					for _, neg := range []bool{false, true} {
+						v, _ := strconv.ParseFloat(lit, 64)
+						n := node{lit, sx.L(sx.A("num"), sx.A(strconv.FormatFloat(v, 'f', -1, 64)))} // as the parser holds it: a float64
+						lu, ru := wrapU(ident("seq")), wrapU(n)
+						if neg {
+							ru = node{"-" + lit, sx.L(sx.A("U"), sx.A("-"), wrapU(n).ast)}
+						}
+						if flip {
+							lu, ru = ru, lu
+						}
+						q := wrapQ(node{lu.text + " " + op + " " + ru.text, sx.L(sx.A("C"), lu.ast, sx.A(op), wrapC(ru).ast)})
+						e := wrapE(wrapL(q))
+						emit(sx.L(sx.S(e.text), e.ast, obj(sx.S("seq"), sInt(5), sx.S("neg"), sInt(-3))))
+					}
+				}
+			}
+		}
+	}
 	// negative zero: the literal -0 and a -0.0 of the record are numerically zero under every operator
 	{
 		ident := func(p string) node { return callNode(p, sx.A("noparams"), sx.A("nosel"), p) }
